@@ -144,7 +144,17 @@ func genMultiLine(t *rapid.T) string {
 		lines = append(lines, rapid.SampledFrom([]string{"", "", " ", "x", "; c", "{", "}", "[", "a b", "]", "  y", "\\\""}).Draw(t, "line"))
 	}
 	body := strings.Join(lines, "\n")
-	switch rapid.IntRange(0, 3).Draw(t, "form") {
+	switch rapid.IntRange(0, 5).Draw(t, "form") {
+	case 4:
+		// one very long physical line (buffer sizes of line readers: 4096, 65536)
+		n := rapid.SampledFrom([]int{4090, 4096, 4100, 65530, 65536, 65540, 70000, 140000}).Draw(t, "long")
+		if rapid.Bool().Draw(t, "array") {
+			return "write(#[" + strings.Repeat("1, ", n/3) + "1])"
+		}
+		return "write(#\"" + strings.Repeat("x", n) + "\")"
+	case 5:
+		// a carriage return before the line break inside a string (never piped to the REPL)
+		return "write(#\"a\r\nb\" + #\"" + body + "\r\n\")"
 	case 0:
 		return "write(\"<\" + \"" + body + "\" + \">\")"
 	case 1:
